@@ -10,7 +10,7 @@
    model of the current code, `fixed = false` of the code before the two `fix:` commits
    04fd1df / 14f58ba.  Check/C04.v ties the float32 instance (ar = f32, fixed = true) to
    /repo on every run; the tables are regenerated from the source on every run. *)
-From Verif Require Import Css.Defaulting Css.DefaultingSpec Css.DefaultingProofs Css.DefaultingTables
+From Verif Require Import Css.Defaulting Css.DefaultingSpec Css.DefaultingTyping Css.DefaultingProofs Css.DefaultingTables
                           Css.DefaultingEquations Css.DefaultingTotal Css.DefaultingSpecProofs.
 From Coq Require Import QArith List.
 Import ListNotations.
@@ -229,6 +229,49 @@ Theorem C04_font_weight_relative_spec : forall (t : tree) (n : N) (nd : node) (v
   computed exactQ true t n PFontWeight = Ok (spec_font_weight pfw v).
 Proof. intros t n nd v s i pfw WF. exact (font_weight_computed t WF n nd v s i pfw). Qed.
 Print Assumptions C04_font_weight_relative_spec.
+
+(* on a well-typed tree no side condition is left: the parent's computed weight is always
+   one of 100, 200, .., 900 (invariant of C04_get_total) *)
+Theorem C04_font_weight_relative_total : forall (t : tree) (n : N) (nd : node) (v : value) s i,
+  wt_tree t = true -> node_at t n = Some nd -> n_kind nd = KElem ->
+  effective nd PFontWeight = Some (CExplicit v) -> v = VIntStr s i ->
+  exists pfw,
+    In pfw css_weights /\
+    match n_parent nd with
+    | Some j => exists sp, computed exactQ true t j PFontWeight = Ok (VIntStr sp pfw)
+    | None => pfw = 400%Z
+    end /\
+    computed exactQ true t n PFontWeight = Ok (spec_font_weight pfw v).
+Proof. intros t n nd v s i WT. exact (font_weight_computed_wt t (WF t WT) n nd v s i WT). Qed.
+Print Assumptions C04_font_weight_relative_total.
+
+(* the computer functions of border widths, line-height, display and float, run in an
+   environment `env` answering what they read through the style, compute what CSS 2.1
+   8.5.1 / 10.8.1 / 9.7 define *)
+Theorem C04_box_computers_spec : forall (env : dep -> res value),
+  (forall p v sty (fs rfs : Q) s q u,
+     env (DOwn (N.pred p)) = Ok (VStr sty) ->
+     v = VDim s q u -> In s [""; "thin"; "medium"; "thick"]%string -> uses_metrics u = false -> u < 256 ->
+     (exists sr ur, env DRootFs = Ok (VDim sr rfs ur)) ->
+     (exists sf uf, env (DOwn PFontSize) = Ok (VDim sf fs uf)) ->
+     exists r, run_pure env (border_width exactQ p v) = Ok r /\ value_eq r (spec_border_width sty fs rfs v)) /\
+  (forall v (fs rfs : Q) s q u,
+     v = VDim s q u -> (s = "" \/ s = "normal")%string -> uses_metrics u = false -> u < 256 ->
+     (exists sr ur, env DRootFs = Ok (VDim sr rfs ur)) ->
+     (exists sf uf, env (DOwn PFontSize) = Ok (VDim sf fs uf)) ->
+     exists r, run_pure env (line_height exactQ v) = Ok r /\ value_eq r (spec_line_height fs rfs v)) /\
+  (forall (isr : bool) v pb ps fl a b c,
+     env DSpecPos = Ok (VBoolStr pb ps) -> env DSpecFloat = Ok (VStr fl) -> v = VDisplay a b c ->
+     run_pure env (display isr v) =
+       Ok (spec_display (negb pb && (String.eqb ps "absolute" || String.eqb ps "fixed")) (negb (String.eqb fl "none")) isr v)) /\
+  (forall v pb ps s,
+     env DSpecPos = Ok (VBoolStr pb ps) -> v = VStr s ->
+     run_pure env (floating v) = Ok (spec_float (String.eqb ps "absolute" || String.eqb ps "fixed" || pb) v)).
+Proof.
+  intros env.
+  exact (conj (border_width_spec env) (conj (line_height_spec env) (conj (display_spec env) (float_spec env)))).
+Qed.
+Print Assumptions C04_box_computers_spec.
 
 (* ------------------------------------------------------------------ the hypotheses are inhabited *)
 
